@@ -74,7 +74,7 @@ def handle (cmd : String) (args : List String) : Option String :=
     match C03Control.handle cmd xs with
     | some r => some r
     | none =>
-    match (if cmd = "sk.load" ∨ cmd = "ft.load" then C03Load.handle cmd xs else none) with
+    match (if cmd = "sk.load" ∨ cmd = "ft.load" then C03Load.handle cmd xs else C03Load.handleCff cmd xs) with
     | some r => some r
     | none =>
     match cmd, xs with
